@@ -229,6 +229,16 @@ def _ripemd(ctx):
     fc = p.get_function('ripemd.compress')
     loops_ = [n for n in fc.node.body if isinstance(n, ast.For)]
     with ctx.obligation('C05.RMD-ROUND', 'ripemd.compress rounds', None, fc.where) as ob:
+        if len(loops_) > 1:
+            # the round loop is the one over 80 values (a loop that builds the 16 message words belongs to the prologue)
+            from ..evalr import _fixed_items
+            e0 = Evaluator(p, 'ecdsa')
+            keep = []
+            for n in loops_:
+                its = _fixed_items(e0.expr(n.iter, Frame(fc, {}, Facts(), fc.module, None, 0)))
+                if its is not None and len(its) == 80:
+                    keep.append(n)
+            loops_ = keep
         if len(loops_) != 1:
             raise AnalysisError('C05.RMD-ROUND', 'compress is expected to contain exactly one round loop')
         loop = loops_[0]
@@ -246,13 +256,47 @@ def _ripemd(ctx):
         block = S('block', type='bytes', len=64)
         pre = fc.node.body[:fc.node.body.index(loop)]
         res, env0, _ = e2.eval_fragment('ripemd.compress', pre, dict(zip(fc.params, hs + [block])))
+        # the two lines of state: whatever variables the round loop carries (ten scalars today; two 5-tuples or lists work
+        # the same way).  A slot is (variable, position or None); every slot starts as one of h0..h4, each h twice.
+        from ..refcmp import _written, _exposed, _reads_outside
+        carried = [n_ for n_ in _written(loop.body) if n_ != getattr(loop.target, 'id', None)
+                   and (n_ in _exposed(loop.body, {getattr(loop.target, 'id', None)}) or n_ in _reads_outside(fc.node, loop))]
+        slots = []
+        for nm in carried:
+            val = env0.get(nm)
+            if val in hs:
+                slots.append((nm, None, hs.index(val)))
+            elif val is not None and T.tag(val) in ('tuple', 'list') and all(x in hs for x in val[1]):
+                for i_, x in enumerate(val[1]):
+                    slots.append((nm, i_, hs.index(x)))
         names5 = {}
-        for nm, val in env0.items():
-            if val in hs and nm not in fc.params:
-                names5.setdefault(hs.index(val), []).append(nm)
+        for sl in slots:
+            names5.setdefault(sl[2], []).append(sl)
         xs = [nm for nm, val in env0.items() if T.tag(val) == 'list' and len(val[1]) == 16]
+        if not xs:
+            xs = [nm for nm, val in env0.items() if T.tag(val) == 'tuple' and len(val[1]) == 16]
         if any(len(names5.get(i, [])) != 2 for i in range(5)) or len(xs) != 1:
             raise AnalysisError('C05.RMD-ROUND', 'cannot identify the two lines of state variables / the message words')
+
+        def bind(env, line_slots, syms):
+            for (nm, pos, _h), sy in zip(line_slots, syms):
+                if pos is None:
+                    env[nm] = sy
+                else:
+                    cur = env.get(nm)
+                    kind = T.tag(env0[nm])
+                    items = list(cur[1]) if cur is not None and T.tag(cur) == kind else [None] * len(env0[nm][1])
+                    items[pos] = sy
+                    env[nm] = (kind, tuple(items))
+
+        def read(env, line_slots):
+            out = []
+            for nm, pos, _h in line_slots:
+                v_ = env.get(nm)
+                if pos is not None:
+                    v_ = v_[1][pos] if v_ is not None and T.tag(v_) in ('tuple', 'list') and pos < len(v_[1]) else None
+                out.append(v_)
+            return out
         xw = env0[xs[0]]
         for i in range(16):
             same_term(ob, xw[1][i], T.int_(T.slice_(block, T.const(4 * i), T.const(4 * i + 4)), LITTLE),
@@ -276,19 +320,17 @@ def _ripemd(ctx):
         import itertools
         assignments = []
         first = [names5[i] for i in range(5)]
-        for pick in itertools.product((0, 1), repeat=1):
-            pass
         # the left line is the set of names that round 0 combines with X[ML[0]] = X0 using shift RL[0]
         leftnames = rightnames = None
         for cand in itertools.product(*[(0, 1)] * 5):
             ln = [first[i][cand[i]] for i in range(5)]
             rn = [first[i][1 - cand[i]] for i in range(5)]
             env = {xs[0]: T.lst(X_)}
-            env.update(dict(zip(ln, L)))
-            env.update(dict(zip(rn, Rr)))
+            bind(env, ln, L)
+            bind(env, rn, Rr)
             env[loop.target.id] = T.const(0)
             res, env1, _ = e2.eval_fragment('ripemd.compress', loop.body, env)
-            if [env1.get(n_) for n_ in ln] == spec_round(L, 0, True) and [env1.get(n_) for n_ in rn] == spec_round(Rr, 0, False):
+            if read(env1, ln) == spec_round(L, 0, True) and read(env1, rn) == spec_round(Rr, 0, False):
                 leftnames, rightnames = ln, rn
                 break
         if leftnames is None:
@@ -297,18 +339,19 @@ def _ripemd(ctx):
         else:
             for j in range(80):
                 env = {xs[0]: T.lst(X_), loop.target.id: T.const(j)}
-                env.update(dict(zip(leftnames, L)))
-                env.update(dict(zip(rightnames, Rr)))
+                bind(env, leftnames, L)
+                bind(env, rightnames, Rr)
                 res, env1, _ = e2.eval_fragment('ripemd.compress', loop.body, env)
                 for side, names, st, left in (('left', leftnames, L, True), ('right', rightnames, Rr, False)):
                     exp = spec_round(st, j, left)
-                    for nm, g, e in zip(names, [env1.get(n_) for n_ in names], exp):
-                        same_term(ob, g, e, 'round %d, %s line, variable %s' % (j, side, nm), '%s:%d' % (fc.module.relpath, loop.lineno))
+                    for (nm, pos, _h), g, e in zip(names, read(env1, names), exp):
+                        same_term(ob, g, e, 'round %d, %s line, variable %s%s' % (j, side, nm, '' if pos is None else '[%d]' % pos),
+                                  '%s:%d' % (fc.module.relpath, loop.lineno))
             # final combination
             post = fc.node.body[fc.node.body.index(loop) + 1:]
             env = dict(zip(fc.params, hs + [block]))
-            env.update(dict(zip(leftnames, L)))
-            env.update(dict(zip(rightnames, Rr)))
+            bind(env, leftnames, L)
+            bind(env, rightnames, Rr)
             res, _, _ = e2.eval_fragment('ripemd.compress', post, env)
             al, bl, cl, dl, el = L
             ar, br, cr, dr, er = Rr
